@@ -184,7 +184,7 @@ CHECKS = {
              'the final CRLF), the extension sets on both sides, and the relay result with the edge reply. Address quoting and '
              'header serialisation are codec fidelity (identity oracle), hence exploration.',
         design='5/C06 and 8', technique='generated envelopes through real relay->edge hops, TLC trace validation with TLA+ equality/normalisation clauses',
-        note='SMTP relay -> SMTP edge (with connection reuse) and HTTP relay -> WSGI edge (with keep-alive) are driven; the library has no LMTP-speaking edge, so the LMTP client has no hop of its own (it is driven against a scripted peer in C10/C11/C19); a completed STARTTLS inside the hop is not driven (C08 covers the TLS boundary). ' + TB),
+        note='SMTP relay -> SMTP edge (with connection reuse) and HTTP relay -> WSGI edge (with keep-alive) are driven; the library has no LMTP-speaking edge, so the LMTP client has no hop of its own (it is driven against a scripted peer in C10/C11/C19); hops that upgrade with STARTTLS (real TLS over the socketpair) are included. ' + TB),
 }
 
 HOOK_COMMITS = []
